@@ -207,6 +207,8 @@ class C05(Prop):
                                 max_size=2),
             'frame_type': st.sampled_from(['single_frame', 'single_frame', 'all_frame']),
             'jump_clock': st.integers(0, 9).map(lambda x: x == 0),
+            # a deferred snapshot: completed by the return event with the returned value captured into the same table
+            'capture': st.sampled_from([None, None, 'small', 'big', 'big']),
         })
 
     def run_case(self, recipe):
@@ -224,6 +226,9 @@ class C05(Prop):
         cfg = dict(lim)
         cfg.update({'watches': list(recipe['watches']), 'frame_type': recipe['frame_type'], 'fire_count': '-1',
                     'fire_period': '0'})
+        if recipe.get('capture'):
+            cfg['stage'] = 'line_capture'
+            out.cls('deferred_capture')
         act = LocationAction('tp', None, cfg, LocationAction.ActionType.Snapshot)
         trig = Trigger(LineLocation(PATH, LINE, Location.Position.START), [act])
         handler, _, push = lab.make_handler([trig])
@@ -233,6 +238,9 @@ class C05(Prop):
         gen = lab.frame_at(PATH, LINE, 'target', frame_locals)
         try:
             handler.trace_call(gen.gi_frame, 'line', None)
+            if recipe.get('capture'):
+                returned = 7 if recipe['capture'] == 'small' else [[i, str(i) * 3, {'k': [i]}] for i in range(60)]
+                handler.trace_call(gen.gi_frame, 'return', returned)
         except BaseException as e:      # noqa
             out.violate('trace_call raised %s' % lab.exc_bucket(e))
         finally:
